@@ -82,6 +82,17 @@ pub enum Naming {
 }
 
 impl Naming {
+    /// $0 $1 $2 ...: the spelling the library itself uses inside canonical shapes
+    pub fn numeric0() -> Naming {
+        Naming::Table((0..256).map(|i| i.to_string()).collect())
+    }
+
+    /// the spellings a history is generated with when the check does not depend on the names: mostly $a.., sometimes
+    /// numeric from 1, numeric from 0 (like shape-internal slots) or $f<n> (like internal fresh slots)
+    pub fn diverse() -> Vec<Naming> {
+        vec![Naming::Alpha, Naming::Alpha, Naming::Alpha, Naming::Numeric, Naming::numeric0(), Naming::FreshLike]
+    }
+
     pub fn slot(&self, n: Name) -> String {
         match self {
             Naming::Alpha => {
